@@ -659,11 +659,13 @@ EXTRA.append(gen_cli)
 
 
 def limit_in(fn, var):
-    """`if <var> > N:` followed by a raise, inside fn"""
+    """`if <var> > N:` (possibly one disjunct of an `or`) followed by a raise, inside fn"""
     for n in ast.walk(fn):
-        if isinstance(n, ast.If) and isinstance(n.test, ast.Compare) and len(n.test.ops) == 1 and isinstance(n.test.ops[0], ast.Gt) \
-                and var in ast.dump(n.test.left) and any(isinstance(b, ast.Raise) for b in n.body):
-            return const(n.test.comparators[0])
+        if isinstance(n, ast.If) and any(isinstance(b, ast.Raise) for b in n.body):
+            tests = n.test.values if isinstance(n.test, ast.BoolOp) and isinstance(n.test.op, ast.Or) else [n.test]
+            for c in tests:
+                if isinstance(c, ast.Compare) and len(c.ops) == 1 and isinstance(c.ops[0], ast.Gt) and var in ast.dump(c.left):
+                    return const(c.comparators[0])
     raise ValueError('no limit on %s' % var)
 
 
@@ -672,6 +674,7 @@ def gen_limits(out):
     def_t = src_ast('lesscpy/plib/deferred.py')
     par_t = src_ast('lesscpy/lessc/parser.py')
     out.put('process_round_limit', 'nat', lambda v: '%d%%nat' % v, lambda: limit_in(find_def(node_t, 'Node', 'process'), 'rounds'))
+    out.put('process_size_limit', 'N', lambda v: '%d%%N' % v, lambda: limit_in(find_def(node_t, 'Node', 'process'), 'len'))
     out.put('mixin_depth_limit', 'nat', lambda v: '%d%%nat' % v, lambda: limit_in(find_def(def_t, 'Deferred', 'parse'), 'depth'))
     out.put('import_depth_limit', 'nat', lambda v: '%d%%nat' % v, lambda: limit_in(find_def(par_t, 'LessParser', 'p_statement_import'), 'importlvl'))
 
